@@ -23,7 +23,7 @@
    - an object is the record (id, geometry token, deadline, field list); the head codec that packs
      id and deadline is Model/Object.v with its own round-trip theorem. *)
 From Coq Require Import String.
-From T38 Require Import Base.Bytes Base.SMap Model.Field Model.Object Model.Spec Model.Glob.
+From T38 Require Import Base.Bytes Base.SMap Model.Field Model.Object Model.Cursor Model.Spec Model.Glob.
 Local Open Scope N_scope.
 
 Record obj := mkObj { o_id : bytes; o_geo : geo; o_ex : Z; o_fields : flist }.
@@ -88,6 +88,8 @@ Definition msg_catching_up : bytes := Eval compute in bs "catching up to leader"
 Definition msg_wrong_nargs_a : bytes := Eval compute in bs "ERR wrong number of arguments for '".
 Definition msg_wrong_nargs_b : bytes := Eval compute in bs "' command".
 Definition msg_ERR : bytes := Eval compute in bs "ERR ".
+
+Definition is_one_of (c : bytes) (l : list bytes) : bool := existsb (bytes_eqb c) l.
 
 (* isReservedFieldName *)
 Definition is_reserved (f : bytes) : bool := bytes_eqb f kw_z || bytes_eqb f kw_lat || bytes_eqb f kw_lon.
@@ -452,22 +454,123 @@ Definition parse_jget (args : list bytes) : parsed :=
   | _ => PErr err_nargs
   end.
 
+(* cmdScanArgs / parseSearchScanBaseTokens for "scan": key, then the option loop (CURSOR, LIMIT, MATCH,
+   ASC, DESC, NOFIELDS are modelled; the field / script / fence options give PUnmodelled), then the
+   output word, then the numbers, then "no argument may be left". *)
+Definition upper (s : bytes) : bytes := map (fun c => if (97 <=? c) && (c <=? 122) then c - 32 else c) s.
+Definition msg_dup_arg_a : bytes := Eval compute in bs "duplicate argument '".
+Definition err_dup_arg (a : bytes) : bytes := msg_dup_arg_a ++ upper a ++ [39].
+Definition kw_cursor : bytes := Eval compute in bs "cursor".
+Definition kw_limit : bytes := Eval compute in bs "limit".
+Definition kw_match : bytes := Eval compute in bs "match".
+Definition kw_desc : bytes := Eval compute in bs "desc".
+Definition kw_asc : bytes := Eval compute in bs "asc".
+Definition kw_nofields : bytes := Eval compute in bs "nofields".
+Definition kw_count : bytes := Eval compute in bs "count".
+Definition scan_unmodelled_opts : list bytes :=
+  Eval compute in map bs ["buffer"; "where"; "wherein"; "whereeval"; "whereevalsha"; "sparse"; "fence"; "commands";
+                          "distance"; "detect"; "nodwell"; "clip"]%string.
+Definition scan_unmodelled_outs : list bytes := Eval compute in map bs ["points"; "hashes"; "bounds"]%string.
+
+Record scanst := mkScanSt { sc_cursor : bytes; sc_limit : bytes; sc_globs : list bytes; sc_desc : bool; sc_asc : bool; sc_nofields : bool }.
+Inductive scanres := ScanDone (st : scanst) (rest : list bytes) | ScanErr (msg : bytes) | ScanUnmodelled | ScanFuel.
+
+Fixpoint scan_loop (fuel : nat) (vs : list bytes) (st : scanst) : scanres :=
+  match fuel with
+  | 0%nat => ScanFuel
+  | S fuel' =>
+      match vs with
+      | [] => ScanDone st vs
+      | w :: nvs =>
+          if isempty w then ScanDone st vs
+          else
+            let lw := lower w in
+            if is_one_of lw scan_unmodelled_opts then ScanUnmodelled
+            else if bytes_eqb lw kw_cursor then
+              if nonempty (sc_cursor st) then ScanErr (err_dup_arg w)
+              else match nvs with
+                   | v :: vs' => if isempty v then ScanErr err_nargs
+                                 else scan_loop fuel' vs' (mkScanSt v (sc_limit st) (sc_globs st) (sc_desc st) (sc_asc st) (sc_nofields st))
+                   | [] => ScanErr err_nargs
+                   end
+            else if bytes_eqb lw kw_nofields then
+              if sc_nofields st then ScanErr (err_dup_arg w)
+              else scan_loop fuel' nvs (mkScanSt (sc_cursor st) (sc_limit st) (sc_globs st) (sc_desc st) (sc_asc st) true)
+            else if bytes_eqb lw kw_limit then
+              if nonempty (sc_limit st) then ScanErr (err_dup_arg w)
+              else match nvs with
+                   | v :: vs' => if isempty v then ScanErr err_nargs
+                                 else scan_loop fuel' vs' (mkScanSt (sc_cursor st) v (sc_globs st) (sc_desc st) (sc_asc st) (sc_nofields st))
+                   | [] => ScanErr err_nargs
+                   end
+            else if bytes_eqb lw kw_desc then
+              if sc_desc st || sc_asc st then ScanErr (err_dup_arg w)
+              else scan_loop fuel' nvs (mkScanSt (sc_cursor st) (sc_limit st) (sc_globs st) true (sc_asc st) (sc_nofields st))
+            else if bytes_eqb lw kw_asc then
+              if sc_desc st || sc_asc st then ScanErr (err_dup_arg w)
+              else scan_loop fuel' nvs (mkScanSt (sc_cursor st) (sc_limit st) (sc_globs st) (sc_desc st) true (sc_nofields st))
+            else if bytes_eqb lw kw_match then
+              match nvs with
+              | v :: vs' => if isempty v then ScanErr err_nargs
+                            else scan_loop fuel' vs' (mkScanSt (sc_cursor st) (sc_limit st) (sc_globs st ++ [v]) (sc_desc st) (sc_asc st) (sc_nofields st))
+              | [] => ScanErr err_nargs
+              end
+            else ScanDone st vs
+      end
+  end.
+
 Definition parse_scan (args : list bytes) : parsed :=
   match args with
-  | [_] => PErr err_nargs
-  | [_; key] => if isempty key then PErr err_nargs else PReq (QScan key false)
-  | [_; key; out] =>
+  | _ :: key :: vs0 =>
       if isempty key then PErr err_nargs
-      else if bytes_eqb (lower out) kw_ids then PReq (QScan key true)
-      else if bytes_eqb (lower out) kw_objects then PReq (QScan key false)
-      else PUnmodelled
-  | _ => PUnmodelled
+      else
+        match scan_loop (S (length vs0)) vs0 (mkScanSt [] [] [] false false false) with
+        | ScanFuel => PFuel
+        | ScanUnmodelled => PUnmodelled
+        | ScanErr msg => PErr msg
+        | ScanDone st vs =>
+            (* the output word *)
+            let outp : option (N * list bytes) + bytes :=
+              match vs with
+              | which :: nvs =>
+                  if isempty which then inl (Some (OUT_OBJECTS, vs))
+                  else
+                    let lw := lower which in
+                    if bytes_eqb lw kw_count then inl (Some (OUT_COUNT, nvs))
+                    else if bytes_eqb lw kw_objects then inl (Some (OUT_OBJECTS, nvs))
+                    else if bytes_eqb lw kw_ids then inl (Some (OUT_IDS, nvs))
+                    else if is_one_of lw scan_unmodelled_outs then inl None
+                    else inr (err_invalid_arg which)
+              | [] => inl (Some (OUT_OBJECTS, vs))
+              end in
+            match outp with
+            | inr msg => PErr msg
+            | inl None => PUnmodelled
+            | inl (Some (out, vs')) =>
+                match (if isempty (sc_cursor st) then Some 0 else o_uint O (sc_cursor st)) with
+                | None => PErr (err_invalid_arg (sc_cursor st))
+                | Some cur =>
+                    match (if isempty (sc_limit st) then Some 0
+                           else match o_uint O (sc_limit st) with
+                                | Some n => if n =? 0 then None else Some n
+                                | None => None
+                                end) with
+                    | None => PErr (err_invalid_arg (sc_limit st))
+                    | Some lim =>
+                        match vs' with
+                        | [] => PReq (QScan key cur lim (sc_globs st) (sc_desc st) out (sc_nofields st))
+                        | _ => PErr err_nargs
+                        end
+                    end
+                end
+            end
+        end
+  | _ => PErr err_nargs
   end.
 
 (* ---------- handleInputCommand: the lock-table arm of a command ---------- *)
 Inductive arm := ArmWrite | ArmRead | ArmOther.
 
-Definition is_one_of (c : bytes) (l : list bytes) : bool := existsb (bytes_eqb c) l.
 
 Definition arm_of (c : bytes) : arm :=
   if is_one_of c [c_set; c_del; c_drop; c_fset; c_flushdb; c_expire; c_persist; c_jset; c_jdel; c_pdel; c_rename; c_renamenx] then ArmWrite
@@ -708,11 +811,12 @@ Definition cmd_jdel (e : env) (s : state) (key id path : bytes) : state * reply 
 Definition find (s : state) (key id : bytes) : option obj :=
   match get key s with Some c => get id c | None => None end.
 
-Definition scan_item_impl (ids : bool) (io : bytes * obj) : reply :=
+Definition scan_item_impl (out : N) (nofields : bool) (io : bytes * obj) : reply :=
   let o := snd io in
-  if ids then RBulk (o_id o)
+  if out =? OUT_IDS then RBulk (o_id o)
   else RArr (RBulk (o_id o) :: RBulk (g_text (o_geo o)) ::
-             match fl_scan (o_fields o) with [] => [] | fs => [RArr (fields_reply fs)] end).
+             (if nofields then [] else
+              match fl_scan (o_fields o) with [] => [] | fs => [RArr (fields_reply fs)] end)).
 
 Definition run_req (fixed : bool) (e : env) (s : state) (q : req) : option (state * reply * bool) :=
   match q with
@@ -767,12 +871,21 @@ Definition run_req (fixed : bool) (e : env) (s : state) (q : req) : option (stat
             end)
   | QKeys pat =>
       Some (s, RArr (map RBulk (filter (matchesb pat) (keys (range_scan pat true s)))), false)
-  | QScan key ids =>
+  | QScan key cursor limit globs desc out nofields =>
       Some (match get key s with
-            | None => (s, RArr [RInt 0; RArr []], false)
+            | None =>
+                (* sw.col == nil: nothing is scanned, writeFoot answers count 0 / cursor 0 and no items *)
+                (s, (if out =? OUT_COUNT then RInt 0 else RArr [RInt 0; RArr []]), false)
             | Some c =>
-                if (length c <? 100)%nat then (s, RArr [RInt 0; RArr (map (scan_item_impl ids) c)], false)
-                else (s, RUnmodelled, false)
+                if out =? OUT_COUNT then
+                  if glob_everything globs then
+                    (s, RInt (Z.max 0 (Z.of_nat (length c) - int_of_uint64 cursor)), false)
+                  else
+                    let '(ids, _) := scan_select matchesb (keys c) cursor (if limit =? 0 then max_uint64 else limit) globs desc in
+                    (s, RInt (Z.of_nat (length ids)), false)
+                else
+                  let '(ids, cur) := scan_select matchesb (keys c) cursor (eff_limit limit) globs desc in
+                  (s, RArr [RInt (int_of_uint64 cur); RArr (map (scan_item_impl out nofields) (scan_pick c ids))], false)
             end)
   | QJget key id path raw =>
       Some (match find s key id with
